@@ -124,8 +124,14 @@ impl Pacer {
             / window;
 
         // divisions come before multiplications to prevent overflow
+        let delay = (unscaled_delay / 5) * 4;
+        // A wait that rounds to nothing would arm the pacing timer at `now` over and over without
+        // any time passing; the missing tokens are negligible
+        if delay.is_zero() {
+            return None;
+        }
         // this is the time at which the pacing window becomes empty
-        Some(now + (unscaled_delay / 5) * 4)
+        Some(now + delay)
     }
 }
 
